@@ -1,5 +1,6 @@
 """C14 - deadlines, cancellation and progress behave the same under any traffic."""
 from harness.sm import *  # noqa
+from symcheck.env import Ticks  # noqa
 from harness import sm
 
 RID = "rid-14"
@@ -153,7 +154,7 @@ def _run(kinds, gaps, T, c, pre_cancelled, raise_at, real=False, raw=False):
     if not real:
         out = run_stub(
             _Script(items),
-            lambda r, w: SM.send_message(r, w, "m", {"a": 1}, timeout=T, message_id=RID, cancellation_token=token, progress_callback=cb),
+            lambda r, w: SM.send_message(r, w, "m", {"a": 1}, timeout=Ticks(T), message_id=RID, cancellation_token=token, progress_callback=cb),
             cancel_at=None if pre_cancelled else c,
             token=token,
         )
